@@ -286,8 +286,8 @@ class Printer:
         lines = self.open_brace(head, 0)
         body: List[List[str]] = [self.column(c, 1) for c in t['cols']]
         extras: List[List[str]] = []
-        for k, v in t['props']:
-            extras.append([self.ind + self.ident(k) + ':' + self.sp() + self.string(v)])
+        if t['props']:      # one block: the order of properties is declared content
+            extras.append([self.ind + self.ident(k) + ':' + self.sp() + self.string(v) for k, v in t['props']])
         if t['note'] and not note_in_settings:
             pos = self.f.pick('note_pos')
             blk = self.body_note(t['note'], 1)
